@@ -3,6 +3,7 @@ import Mitx.Driver.Attempt
 import Mitx.Driver.Parser
 import Mitx.Driver.Grade
 import Mitx.Driver.StringG
+import Mitx.Driver.CallState
 open Lean
 
 def dispatch (op : String) (j : Json) : Except String Json :=
@@ -10,6 +11,7 @@ def dispatch (op : String) (j : Json) : Except String Json :=
   | "munkres" => Drv.munkres j
   | "sched" => Drv.sched j
   | "parse" => Drv.parse j
+  | "call_hist" => Drv.callHist j
   | "string_clean" => Drv.stringClean j
   | "string_check" => Drv.stringCheck j
   | "check" => Drv.gradeCheck j
